@@ -47,7 +47,7 @@ def main():
             out = args[i + 1]; i += 2
         else:
             pats.append(args[i]); i += 1
-    files = sorted(sum((glob.glob(p) for p in (pats or [f"{V}/selftest/patches/bn*_*.diff"])), []))
+    files = sorted(os.path.abspath(f) for f in sum((glob.glob(p) for p in (pats or [f"{V}/selftest/patches/bn*_*.diff"])), []))
     n = 0
     with cf.ProcessPoolExecutor(max_workers=jobs) as ex, open(out, "w") as fh:
         for res in ex.map(work, files):
